@@ -578,6 +578,15 @@ pub fn c18_all(m: &mut Mon, ctx: &StepCtx, stats: &mut Stats, out: &mut Vec<Viol
                         m.allow_model.remove(&k);
                     }
                 }
+                // the stored allowance follows the same rule (a remaining allowance keeps its
+                // expiration unless the message names a new one)
+                stats.check("c18_allowance_decrease");
+                let k = (tok.idx(), owner.clone(), spender.clone());
+                if let (Some(me), Some(stored)) = (m.allow_model.get(&k), ctx.post.t(*tok).and_then(|t| t.allow.get(&(owner.clone(), spender.clone())))) {
+                    if stored.allowance.u128() != me.0 || stored.expires != me.1 {
+                        viol(out, "C18", "allowance_grant_follows_model", ctx.idx, &format!("{}.decrease_allowance:stored_allowance", tok.addr()), format!("after DecreaseAllowance {} {:?} by {} for {}: stored ({}, {:?}), grants so far give ({}, {:?})", amount, exp, owner, spender, stored.allowance, stored.expires, me.0, me.1));
+                    }
+                }
             }
         }
         Op::TransferFrom { tok, spender, owner, amount, .. } | Op::BurnFrom { tok, spender, owner, amount } | Op::SendFrom { tok, spender, owner, amount, .. } => {
